@@ -32,9 +32,10 @@ package main
 // bytes), several of one family in the same DB; secondary keys, primary keys and query bounds carry the same
 // characters.  All of these are inside the alphabet of the theorems (name without '/', secondary key bytes > 1):
 // the byte-level key construction is what this leg covers.
-// "wild" cases add what the server accepts but the layout cannot represent (name with '/', empty name, secondary key
-// with \x01 / \x00 / empty): they are compared with the model only (which transcribes the ambiguity); what the
-// reference would say is counted under c15:wild:* (see Properties/C15.v, *_refuted).
+// "wild" cases add what the layout cannot represent (name with '/', empty name, secondary key with \x01 / \x00 /
+// empty).  Since the repair O-45 the leader's validation refuses such declarations (c15_leader.go drives that);
+// here they reach the DB directly, as data written before the repair would: compared with the model only (which
+// transcribes the ambiguity); what the reference would say is counted under c15:wild:* (Properties/C15.v, *_refuted).
 //
 // Corpus / replay lines of kind "iseq" have the grammar of "seq"; they are executed with these verdicts and
 // recorded as "seq" cases for the model ("wseq": same, not judged by the reference).
